@@ -70,9 +70,7 @@ class ExprInModel(ExprModel):
                     # TODO: must handle case where size is random
                     arr : FieldArrayModel = r.fm
                     
-                    if arr.is_rand_sz and arr.is_used_rand:
-                        pass
-                    else:
+                    if True:
                         # (a list that is not random in this call contributes
                         # the elements that it holds, whatever its declaration)
                         for i in range(int(arr.size.get_val())):
@@ -80,6 +78,13 @@ class ExprInModel(ExprModel):
                                 self.lhs, 
                                 BinExprType.Eq, 
                                 ExprFieldRefModel(arr.field_l[i]))
+                            if arr.size_is_solved():
+                                # The element is a member only if the 
+                                # solved size includes it
+                                t = ExprBinModel(
+                                    arr.in_list_expr(i),
+                                    BinExprType.And,
+                                    t)
                             if expr is None:
                                 expr = t
                             else:
